@@ -19,7 +19,10 @@ Section Pipeline.
   (* ---- the quantum semantics: parameters ---- *)
   Variables circ state obs params layout wiring dist outcome bitfun : Type.
   Variable sem : circ -> params -> state.            (* state prepared from |0..0> by the bound circuit *)
-  Variable compose : circ -> circ -> circ.            (* a.compose(c): first a, then c *)
+  Variable compose : circ -> circ -> circ.            (* a.compose(c) *)
+  Variable apply : circ -> params -> state -> state.  (* the bound circuit acting on a given state; the law
+                                                         sem (compose a c) p = apply c p (sem a p) ("first a, then c") is a
+                                                         premise of the theorems (Pipeline_proofs.v) *)
   Variable permute : layout -> state -> state.        (* the state with its qubits moved along a layout *)
   Variable relabel : layout -> obs -> obs.            (* ObservablesArray.apply_layout *)
   Variable wid : circ -> wiring.                      (* measure_all: clbit i of "meas" reads qubit i *)
@@ -137,8 +140,11 @@ Section Pipeline.
     estimator (map (fun cp => (fst cp, ob, snd cp)) (combine (map (with_init init) circuits) pvals)).
 
   (* ---- the objective (specification side) ---- *)
-  (* the state of "initial state followed by the bound circuit" *)
-  Definition prepared (init : option circ) (c : circ) (p : params) : state := sem (with_init init c) p.
+  (* the state of "initial state followed by the bound circuit": the bound circuit APPLIED TO the state the initial-state
+     circuit prepares — stated with `apply`, not with `compose`, so that the theorems say in which order the evaluators
+     must compose *)
+  Definition prepared (init : option circ) (c : circ) (p : params) : state :=
+    match init with Some a => apply c p (sem a p) | None => sem c p end.
   (* its measurement distribution at the resolution of the primitive: what the raw sampler reports, as probabilities *)
   Definition resolved (shots : Z) (init : option circ) (c : circ) (p : params) : quasi :=
     quasi_of shots (counts_of shots (read (wid (with_init init c)) (prepared init c p))).
